@@ -281,8 +281,11 @@ pub fn check_step(c: &StepCase, ctx: &mut Ctx) -> CheckResult {
             let m = mabs / (norm_inf(x) + a * norm_inf(d)).max(1e-300) / (x.len() as f64);
             // a ray that passes (almost) through the apex meets the boundary in a double root of the step-length
             // quadratic, which double arithmetic resolves only to sqrt(eps): the same tolerance as for tightness
-            let through_apex = norm_inf(&pt) <= 1e-6 * (norm_inf(x) + a * norm_inf(d));
-            let slack = if through_apex && is_sym { slack.max(8.0 * (EPS / m0).sqrt()) } else { slack };
+            // more generally the root is ill-conditioned in proportion to how close to the apex the ray lands:
+            // with rho = |x + alpha d| / (|x| + alpha |d|) the attainable accuracy is ~eps/rho, capped by sqrt(eps)
+            let rho = norm_inf(&pt) / (norm_inf(x) + a * norm_inf(d)).max(1e-300);
+            let apex_slack = if rho > 0.0 { (64.0 * EPS / rho).min(8.0 * (EPS / m0).sqrt()) } else { 8.0 * (EPS / m0).sqrt() };
+            let slack = if is_sym { slack.max(apex_slack) } else { slack };
             ensure!(m >= -slack, "{nm} + alpha*d{nm} leaves cone #{ci} {k:?}: alpha = {a:e}, relative margin {m:e} (allowed {:e}); x = {:?}, d = {:?}", -slack, x, d);
         }
         let bz = boundary_alpha(k, zi, dzi, true, c.alpha_max);
